@@ -48,6 +48,12 @@ CHECKS = {
  "C17": ("4 C17", "R1: exhaustive TLC model check of the Bos-Coster heap algorithm (2-bit limbs, formal points): sum preserved at every step, truncated comparisons exact, heap order, result exact unless "
          "flagged design-inexact; R3: every iteration of the real multiScalarmultVartime (heap hook) replayed by TLC on the real 253-bit scalars, result compared with the exact sum; "
          "all-valid batches of all sizes must show Equation(1) and no Fallback event in every chunk (hook trace validated through Batch.tla)"),
+ "C08": ("4 C08", "R3: the same seed-determined inputs are run under all six build configurations (default/asm, noasm, force32bit, noasm+appengine, force32bit+appengine, GOARCH=386); TraceConfigs.tla (a state machine "
+         "that remembers the observation of every input) requires byte-identical keys, signatures, verdict vectors, batch results, X25519 outputs, conversions and canonical internal outputs; the numeric trace of "
+         "further configurations is validated against TraceNum.tla; R1: recodings exhaustive at scaled size"),
+ "C15": ("4 C15", "R1: TLC explores every interleaving of 3 clients x 3 chunk steps of Conc.tla: package-level variables never written, every call returns its solo result (a shared scratch heap is refuted as control); "
+         "R2: all interleavings of the chunk steps of concurrent VerifyBatch calls enumerated by TLC and replayed on the real code with a blocking entropy reader as gate; R3: ordered pairs / triples of a 16-operation "
+         "alphabet and 16 free-running goroutines under the race detector, every result and a digest of all package-level variables validated by TraceConc.tla"),
  "C09": ("4 C09", "R1: SmallOrder(P) <=> k=0 in Z_L x Z_8 drives the pipeline; R2/R3: the 14 torsion encodings (positive) and [k]B+T_t for all t, non-canonical y+p, small k (negative) "
          "as key and as R through single/batch verification and directly through isSmallOrderVartime, validated by TLC"),
  "C20": ("4 C20", "R1: non-interference of the leakage models of the selector / recoding loop / comparison as a 2-safety property, decided by TLC through self-composition over all pairs of secrets "
